@@ -10,7 +10,7 @@
 #             (clamped answers and positions equal; overflow only when justified; window errors
 #             only for undisciplined clients; stale rewind only after a discard; reader regions
 #             inside the allocation): real buffer_input deviating from it -> ctx.violation.
-#  part (b) : grammar-level differential on the real library only (mode gram): 40 grammars x
+#  part (b) : grammar-level differential on the real library only (mode gram): 42 grammars x
 #             inputs x input classes, every class compared with memory_input<eager>.
 import concurrent.futures
 import os
@@ -510,7 +510,7 @@ def short(h, n=48):
 WRAP_SIG = "buffer_input::require pointer wrap on size_t(-1): everything consumes only buffered bytes"
 WRAP_WITNESS = {"mode": "gram", "grammar": 30, "class": "buffer_input<programmable reader>", "maximum": 100, "chunk": 64,
                 "schedule": "-", "input_hex": b"abcdef".hex(), "rule": "everything", "input": "abcdef"}
-NGRAMMARS = 40
+NGRAMMARS = 42
 
 
 def handle_mismatch(ctx, l):
